@@ -244,8 +244,9 @@ func (me *multiEndpoint) switchFromTo(f, t *endpoint) {
 		if !ok || e.status != available {
 			return
 		}
-		if c, exists := me.endpoints[me.current]; exists && c.status == available && c.priority < e.priority {
-			// This switch is outdated: the current endpoint is available and has higher priority.
+		if c, exists := me.endpoints[me.current]; exists && c.status != unavailable && c.priority < e.priority {
+			// This switch is outdated: the current endpoint has higher priority and is available,
+			// or is still recovering (it stays current while no higher priority endpoint is available).
 			return
 		}
 		me.current = e.id
